@@ -189,3 +189,48 @@ pub fn ancestors_of(g: &[Vec<usize>], x: usize) -> Vec<usize> {
 pub fn reload(test_repo: &testutils::TestRepo, settings: &UserSettings) -> Arc<ReadonlyRepo> {
     test_repo.env.load_repo_at_head(settings, test_repo.repo_path())
 }
+
+/// One finished case, produced off the main thread.
+pub struct CaseOut {
+    pub term: String,
+    pub nontrivial: bool,
+    pub shape: String,
+    pub panicked: bool,
+}
+
+/// Runs `f` for every case index on a few worker threads (each case is a function of its
+/// index alone, so the outcome does not depend on the scheduling) and returns the results in
+/// index order. `VERIF_THREADS` overrides the number of workers.
+pub fn par_cases(
+    ctx: &jjv::Ctx,
+    f: impl Fn(&jjv::Ctx, usize) -> CaseOut + Sync,
+) -> Vec<(usize, CaseOut)> {
+    use std::sync::atomic::AtomicUsize;
+    use std::sync::atomic::Ordering;
+    let indices = ctx.indices();
+    let threads = std::env::var("VERIF_THREADS")
+        .ok()
+        .and_then(|s| s.parse::<usize>().ok())
+        .unwrap_or(8)
+        .clamp(1, indices.len().max(1));
+    let next = AtomicUsize::new(0);
+    let out = std::sync::Mutex::new(Vec::new());
+    std::thread::scope(|s| {
+        for _ in 0..threads {
+            s.spawn(|| {
+                loop {
+                    let k = next.fetch_add(1, Ordering::SeqCst);
+                    if k >= indices.len() {
+                        break;
+                    }
+                    let i = indices[k];
+                    let r = f(ctx, i);
+                    out.lock().unwrap().push((i, r));
+                }
+            });
+        }
+    });
+    let mut v = out.into_inner().unwrap();
+    v.sort_by_key(|(i, _)| *i);
+    v
+}
